@@ -42,7 +42,7 @@ VENDORS = [("huawei", "Huawei CE6870"), ("cisco", "Cisco Catalyst"), ("nexus", "
 EXITS = {"quit", "exit", "end-filter", "end-list", "endif", "exit-address-family", "end-set", "end-policy"}
 
 COMMON = [S(["a"]), S(["undo a2"]), S(["b 1"], [S(["c"]), S(["d 1"], [S(["e"], [S(["f"])])]), S(["undo d 2"])]), S(["b 2"], [S(["c"])]),
-          S(["EMPTYBLOCK p"])]
+          S(["EMPTYBLOCK p"]), S(["k 1"], [S(["c"])])]
 SPECIAL = {
     "huawei": [S(["xpl route-filter F"], [S(["if x then"], [S(["apply y"])]), S(["if y then"], [S(["apply z"])]), S(["else"], [S(["refuse"])])]),
                S(["xpl ip-prefix-list L"], [S(["10.0.0.0 8"])]),
@@ -61,10 +61,14 @@ b * %timeout=12
 undo a2 %timeout=15
 xpl ~ %timeout=18
     if ~ %timeout=19
+k * %timeout=21
+c %timeout=23
+rsa ~ %timeout=25
+public-key-code ~ %timeout=26
 """
 
 
-COMMON_SMALL = [S(["a"]), S(["b 1"], [S(["c"]), S(["d 1"], [S(["e"])])]), S(["EMPTYBLOCK p"])]
+COMMON_SMALL = [S(["a"]), S(["b 1"], [S(["c"]), S(["d 1"], [S(["e"])])]), S(["EMPTYBLOCK p"]), S(["k 1"], [S(["c"])])]
 
 
 def slots_for(vname, tier=None):
